@@ -21,6 +21,7 @@ from . import core, r_mpt
 from .core import walk, key, strip_casts, const_val
 
 UNSURE = "unsure"
+BSWAP = {"htons": 16, "ntohs": 16, "htonl": 32, "ntohl": 32, "__bswap_16": 16, "__bswap_32": 32}   # little-endian host
 MAXDEPTH = 2
 
 
@@ -61,6 +62,10 @@ class PE:
                     return bind[kk]
                 if n.get("fn") in self.call_default:
                     return self.call_default[n["fn"]]
+                if n.get("fn") in BSWAP and len(n["args"]) == 1:
+                    v = rec(n["args"][0])
+                    w = BSWAP[n["fn"]]
+                    return int.from_bytes((v & ((1 << w) - 1)).to_bytes(w // 8, "little"), "big")
                 return None
             if k in ("ref", "mem", "sub") or (k == "un" and n.get("op") == "*"):
                 kk = key(n)
@@ -68,8 +73,8 @@ class PE:
                     if bind[kk] == UNSURE:
                         raise r_mpt.Unknown()
                     return bind[kk]
-                if k == "mem" and "t" in n and u.type(n["t"])["k"] == "arr":
-                    return self._addr(n, rec)        # an array member used as a pointer: its address
+                if k in ("mem", "ref") and "t" in n and u.type(n["t"])["k"] == "arr":
+                    return self._addr(n, rec)        # an array used as a pointer: its address
                 return None
             if k == "un" and n.get("op") == "&":
                 return self._addr(strip_casts(n["e"]), rec)
@@ -138,6 +143,12 @@ class PE:
             return rec(lv["e"])
         if k == "cast":
             return self._addr(lv["e"], rec)
+        if k == "ref" and lv.get("dk") in ("local", "parm") and "id" in lv:
+            # objects of the function itself get distinct pseudo addresses
+            tab = self.__dict__.setdefault("_locals", {})
+            if lv["id"] not in tab:
+                tab[lv["id"]] = 0x1000000 + 0x10000 * len(tab)
+            return tab[lv["id"]]
         raise r_mpt.Unknown()
 
     def depends(self, e, bind):
@@ -157,7 +168,7 @@ class PE:
         res = []
         for x, _ in walk(e):
             if x.get("k") == "call" and x.get("fn") in self.u.functions and self.u.functions[x["fn"]].has_cfg:
-                if key(x) in bind or x.get("fn") in self.call_default:
+                if key(x) in bind or x.get("fn") in self.call_default or x.get("fn") in BSWAP:
                     continue
                 cb = self._callee_bind(x, bind)
                 if cb:
@@ -167,6 +178,8 @@ class PE:
     def _callee_bind(self, call, bind):
         callee = self.u.functions[call["fn"]]
         cb = {}
+        # constant arguments are part of the callee's knowledge once any argument carries bound knowledge
+        cb_consts = any(self.depends(a, bind) for a in call["args"])
         for p, a in zip(callee.params, call["args"]):
             a0 = strip_casts(a)
             if self.depends(a, bind):
@@ -174,6 +187,8 @@ class PE:
                     cb[p["n"]] = r_mpt.eval_expr(a, {}, self._hook(bind, {}))
                 except r_mpt.Unknown:
                     cb[p["n"]] = UNSURE
+            elif const_val(a) is not None and cb_consts:
+                cb[p["n"]] = int(const_val(a))
             if a0.get("k") == "ref":
                 pre = a0["n"] + "->"
                 for kk, v in bind.items():
@@ -251,6 +266,7 @@ class PE:
             if stop is not None and e is stop:
                 return [(b, s, True) for b, s in states]
             if e is blk.cond:
+                states = [(self._addr_taken(e, b), s) for b, s in states]
                 continue
             k = e.get("k")
             nxt = []
@@ -262,13 +278,33 @@ class PE:
                     nb = dict(b)
                     lk = key(strip_casts(e["x"]))
                     if lk in nb or self.depends(e["y"], b):
-                        nb[lk] = UNSURE
+                        # x op= y  evaluated as  x op y  when both sides are known
+                        try:
+                            tmp = {"k": "bin", "op": e["op"][:-1], "x": e["x"], "y": e["y"]}
+                            if "t" in e:
+                                tmp["t"] = e["t"]
+                            v = r_mpt.eval_expr(tmp, {}, self._hook(b, {}))
+                            lt = self.u.type(e["x"]["t"]) if "t" in e["x"] else None
+                            if lt is not None and lt["k"] == "int":
+                                w = lt.get("w", 64)
+                                v &= (1 << w) - 1
+                                if lt.get("sg") and v >= 1 << (w - 1):
+                                    v -= 1 << w
+                            nb[lk] = v
+                        except (r_mpt.Unknown, KeyError, TypeError):
+                            nb[lk] = UNSURE
                     nxt.append((nb, s))
                 elif k == "un" and ("++" in e["op"] or "--" in e["op"]):
                     nb = dict(b)
                     lk = key(strip_casts(e["e"]))
                     if lk in nb:
-                        nb[lk] = UNSURE
+                        if isinstance(nb[lk], int):
+                            es = 1
+                            if "t" in e["e"] and self.u.type(e["e"]["t"])["k"] == "ptr":
+                                es = self.u.elem_size(e["e"]["t"]) or 1
+                            nb[lk] = nb[lk] + (es if "++" in e["op"] else -es)
+                        else:
+                            nb[lk] = UNSURE
                     nxt.append((nb, s))
                 elif k == "decl":
                     cur = [(b, s)]
@@ -343,6 +379,7 @@ class PE:
                         return events, "undecided:return value at line %s" % e.get("ln")
                     return events, vs[0][0]
                 if e is blk.cond:
+                    b = self._addr_taken(e, b)
                     continue
                 res = self._step_elem(fn, e, b, 0)
                 if len(res) != 1 or not res[0][1]:
